@@ -540,6 +540,15 @@ parse_next_record_header:
         *in = pb.buf.start;
         return rc;
     }
+    else if (DECRYPTING_RECORDS(ssl))
+    {
+        /* RFC 8446 5.1/5.4: a protected record whose inner content type is
+           none of the above (change_cipher_spec included) is an
+           unexpected message. */
+        psTraceIntInfo("Illegal inner content type: %d\n", innerType);
+        ssl->err = SSL_ALERT_UNEXPECTED_MESSAGE;
+        goto encodeResponse;
+    }
 
     /* Advance pointer to point to after the data we have read. */
     *in = pb.buf.start;
